@@ -115,12 +115,34 @@ def rule_inputs(model: Model, tier: str):
                         for b in (2, E, 0.5):
                             out.append(((k, ch, b), f"{k}<{ck}>"))
         elif k in spec.BINARY:
+            if deep:
+                for ck in kinds:
+                    if ck in spec.LEAF:
+                        continue
+                    for ch in deep_child_shapes(model, ck, kinds, nm, tier):
+                        out.append(((k, ch, nm.var()), f"{k}<deep {ck},_>"))
+                        out.append(((k, nm.var(), ch), f"{k}<_,deep {ck}>"))
             for lk in kinds:
                 for rk in kinds:
                     for l in child_shapes(lk, nm, tier, True):
                         for r in child_shapes(rk, nm, tier, lk == "Variable" or rk == "Variable"):
                             out.append(((k, l, r), f"{k}<{lk},{rk}>"))
         else:
+            if deep:
+                # a reducer of this n-ary class inspects grandchildren: children whose own children are
+                # drawn from the inspected classes, alone and next to each plain child shape
+                deeps = []
+                for ck in kinds:
+                    if ck not in spec.LEAF:
+                        deeps += [(ck, ch) for ch in deep_child_shapes(model, ck, kinds, nm, tier)]
+                plain = []
+                for ck in kinds:
+                    plain += [(ck, ch) for ch in child_shapes(ck, nm, tier, False)[:2]]
+                for (dk, dch) in deeps:
+                    out.append(((k, [dch]), f"{k}<deep {dk}>"))
+                    for (pk, pch) in plain:
+                        out.append(((k, [pch, dch]), f"{k}<{pk},deep {dk}>"))
+                        out.append(((k, [dch, pch]), f"{k}<deep {dk},{pk}>"))
             max_ar = 3
             for ar in range(0, max_ar + 1):
                 for combo in itertools.product(kinds, repeat=ar):
@@ -201,7 +223,9 @@ def variable_free_inputs(model: Model):
     bad = [("Reciprocal", ("Constant", 0)), ("Logarithm", ("Constant", -1), E), ("NthRoot", ("Constant", -4), 2),
            ("Power", ("Constant", 0), ("Constant", 2))]
     good = [("Reciprocal", ("Constant", 4)), ("Logarithm", ("Constant", 8), 2), ("NthRoot", ("Constant", 9), 2),
-            ("Add", [("Constant", 1), ("Constant", 2)]), ("Sine", ("Constant", 0))]
+            ("Add", [("Constant", 1), ("Constant", 2)]), ("Sine", ("Constant", 0)),
+            ("Exponential", ("Constant", -40), E), ("Reciprocal", ("NthPower", ("Constant", 10), 12)),
+            ("Exponential", ("Constant", 40), 2), ("NthRoot", ("Constant", 2), 2), ("Divide", ("Constant", 1), ("Constant", 3))]
     x = ("Variable", "x")
     out = []
     for b in bad + good:
